@@ -8,7 +8,7 @@ from mapgen import parse_line, run_resilient
 
 
 class Prog:
-    __slots__ = ("id", "call", "desc", "cfg_ok")
+    __slots__ = ("id", "call", "desc", "cfg_ok", "body")
 
     def __init__(self, call, desc, cfg_ok=None):
         self.id, self.call, self.desc, self.cfg_ok = None, call, desc, cfg_ok
@@ -47,7 +47,7 @@ def run_programs(fam, header, progs, cases, configs, workdir, model_exe, nshards
             ok = [p for p in used if p.cfg_ok is None or p.cfg_ok(cfg)]
             if not ok:
                 continue
-            jobs.append(("%s%d" % (name, sh_), tu_source(header, fam, ok, prelude), cfg))
+            jobs.append(("%s%d" % (name, sh_), tu_source(header, fam, ok, prelude(ok) if callable(prelude) else prelude), cfg))
             jobmeta.append((sh_, cfg, set(p.id for p in ok)))
     built = compile_many(jobs)
     exes = {}
